@@ -371,7 +371,42 @@ def D16():
     return p.returncode == 0
 
 
-ALL = [D1, D2, D3, D4, D5, D6, D7, D7b, D8, D9, D10, D11, D12, D13, D14, D15, D16]
+def D17():
+    """a function pickled BY VALUE together with its globals (a function of a module that cannot be imported by
+    name: code loaded with exec / a plug-in loader) as a runtime attribute, and as the filterfunc key of a cached
+    neighbors() answer: nrpickler.dumps must succeed (it raised KeyError where dill.dumps succeeds) and the copy work"""
+    import types
+    import dill
+    from edgegraph.structure import Vertex, DirectedEdge
+    from edgegraph.traversal import helpers
+    from edgegraph.output import nrpickler
+    m = types.ModuleType("eg_verif_ghost")
+    exec("def gf(e, v):\n    return helper(e)\ndef helper(e):\n    return True\ndef lone(x):\n    return x + 1\n", m.__dict__)
+    old = Vertex.NEIGHBOR_CACHING
+    try:
+        for proto in range(6):
+            Vertex.NEIGHBOR_CACHING = False
+            a, b = Vertex(), Vertex()
+            DirectedEdge(a, b)
+            a.cb, b.cb = m.gf, m.lone
+            c = dill.loads(nrpickler.dumps(a, protocol=proto))
+            if c.cb(None, None) is not True or helpers.neighbors(c)[0].cb(1) != 2:
+                return False
+            Vertex.NEIGHBOR_CACHING = True
+            x, y = Vertex(), Vertex()
+            DirectedEdge(x, y)
+            helpers.neighbors(x, filterfunc=m.gf)
+            z = dill.loads(nrpickler.dumps(x, protocol=proto))
+            if len(helpers.neighbors(z)) != 1:
+                return False
+    except Exception:  # noqa: BLE001
+        return False
+    finally:
+        Vertex.NEIGHBOR_CACHING = old
+    return True
+
+
+ALL = [D1, D2, D3, D4, D5, D6, D7, D7b, D8, D9, D10, D11, D12, D13, D14, D15, D16, D17]
 
 if __name__ == "__main__":
     bad = 0
